@@ -214,7 +214,7 @@ pub fn scenarios(thorough: bool) -> Vec<StopScenario> {
 pub fn check(rep: &Reporter) {
 	let thorough = rep.tier.thorough();
 	rep.set_rule(
-		"0–3 connections (WebSocket and keep-alive HTTP/1.1, raw peers over in-memory duplexes) with calls to a handler that parks at scheduling points, optional open subscription; stop() (or dropping every ServerHandle) is its own scheduling point and therefore lands at every position: before the call bytes are sent, sent but unread, handler started, handler finished but reply unwritten, reply written; second stop(), peer close/drop racing the stop; per scenario also the library's cfg points in the WebSocket tasks. Monitor: every call whose handler started and whose peer stayed is answered, the handler ran to completion, no transport write and no handler start after stopped() resolved, stopped() resolves and every serve future ends.",
+		"0–3 connections (WebSocket and keep-alive HTTP/1.1, raw peers over in-memory duplexes) with calls to a handler that parks at scheduling points, optional open subscription; stop() (or dropping every ServerHandle) is its own scheduling point and therefore lands at every position: before the call bytes are sent, sent but unread, handler started, handler finished but reply unwritten, reply written; second stop(), peer close/drop and unsolicited Pong/Ping frames racing the stop; per scenario also the library's cfg points in the WebSocket tasks. Monitor: every call whose handler started and whose peer stayed is answered, the handler ran to completion, no transport write and no handler start after stopped() resolved, stopped() resolves and every serve future ends.",
 	);
 	rep.assume("'handed to the transport' is observed as a write on the server half of the duplex (logged by a pass-through wrapper)");
 	rep.assume("SRV-TCP legs (Server::start over loopback sockets): quiescence = the runtime polled nothing but the driver for 4 consecutive rounds; the order 'answer read by the peer' vs 'stopped() resolved' is not judged there; every schedule is re-executed and a divergence is counted as inconclusive");
